@@ -14,7 +14,7 @@ structure TimeStats where
   slowest : Nat
   median  : Nat
   mean    : Nat
-  deriving Repr
+  deriving Repr, DecidableEq
 
 /-- the time part of `compute_stats`; `sorted` = the samples sorted by duration, `s` = sample size.
     Divisions in the order the code performs them; `checked_div(..).unwrap_or_default()` for the mean. -/
@@ -134,5 +134,34 @@ theorem time_order (s : Nat) (hs : 0 < s) (sorted : List Nat) (hne : sorted ≠ 
 theorem empty_is_zero (s : Nat) : timeStats s [] = ⟨0, 0, 0, 0⟩ := by
   simp [timeStats, sliceMiddle, sum]
 
-#eval timeStats 2 [10, 20, 31, 40]
+/-! ### figures attached to samples: selected through the *index* of the sample that supplied the time -/
+
+/-- `sorted` is the list of sample indices ordered by duration (any sorted permutation) -/
+def sliceMiddleIdx (l : List Nat) : List Nat :=
+  if l.length = 0 then []
+  else if l.length % 2 = 0 then (l.drop (l.length / 2 - 1)).take 2
+  else (l.drop (l.length / 2)).take 1
+
+structure Picked (α : Type) where
+  fastest : Option α
+  slowest : Option α
+  median : List α
+  deriving Repr
+
+/-- values (allocation tallies, counter values, durations …) of the fastest, slowest and median samples -/
+def pick {α} (vals : List α) (sorted : List Nat) : Picked α :=
+  { fastest := sorted.head?.bind (vals[·]?)
+    slowest := sorted.getLast?.bind (vals[·]?)
+    median := (sliceMiddleIdx sorted).filterMap (vals[·]?) }
+
+/-- counter median: `sum / median_samples.len()`; `none` = the division by zero of the pinned code -/
+def counterMedianPinned (mid : List Nat) : Option Nat :=
+  if mid.length = 0 then none else some (sum mid / mid.length)
+
+/-- repaired (F3): `checked_div(..).unwrap_or_default()` -/
+def counterMedian (mid : List Nat) : Nat := if mid.length = 0 then 0 else sum mid / mid.length
+
+/-- per-input counter: value stored for a sample = Σ over its inputs / sample size -/
+def perIter (inputCounts : List Nat) (s : Nat) : Nat := sum inputCounts / s
+
 end Stats
